@@ -234,6 +234,29 @@ pub fn judge_case(c: &Case) -> Obs {
             return obs;
         }
     }
+    // one case in four once more in the normal (non-minimal) output mode, where `assembly` draws
+    // the statement inside its source context and `print` draws a table: the session must come
+    // back to the prompt and end the same way (what is drawn there is compared by `judge_table`
+    // for the breakpoint table only)
+    if obs.key % 4 == 0 {
+        obs.label("repeated-in-normal-output-mode");
+        let s2 = lacebox::run_session(
+            Load::Source { text: r.text.clone(), debugger: Some(Some(script.clone())) },
+            RunSpec { stack: raw.stack, minimal: false, fuel: 10 * lines.len() as u64 + 100, input: vec![] },
+        );
+        if let Some(o2) = &s2.outcome {
+            match &o2.stop {
+                Stop::Panic(msg, loc) if !msg.contains("RTI") => {
+                    let sig = if loc == "<spin>" { "C17:session-spins-without-progress".to_string() } else { format!("C17:{}", super::c01::panic_sig(msg, loc)) };
+                    obs.set_fail(sig, format!("in the normal (non-minimal) output mode the session panics: {msg} at {loc}\n{shown}"));
+                }
+                other if *other != out.stop || o2.fin != out.fin => {
+                    obs.set_fail("C17:output-mode-changes-behaviour", format!("the same session in the normal output mode ends with {:?} (minimal: {:?}); final machines {}\n{shown}", other, out.stop, if o2.fin == out.fin { "equal" } else { "differ" }));
+                }
+                _ => {}
+            }
+        }
+    }
     obs
 }
 
@@ -372,7 +395,7 @@ impl Prop for C17 {
         "C17"
     }
     fn rule(&self) -> &'static str {
-        "RefAsm programs over the whole instruction / trap / directive set (operand-less instructions after operand-ful ones, .stringz / .blkw / .fill, labels with and without colon and on their own line, commas / tabs / comments between and after operands, multi-byte characters in comments and strings, .break and .orig, origins on both sides of 0x8000, CRLF) rendered under four layout styles (the fourth writes statements across source lines). \
+        "RefAsm programs over the whole instruction / trap / directive set (operand-less instructions after operand-ful ones, .stringz / .blkw / .fill, labels with and without colon and on their own line, commas / tabs / comments between and after operands, multi-byte characters in comments and strings, .break and .orig, origins on both sides of 0x8000, CRLF) rendered under four layout styles (the fourth writes statements across source lines); one case in four is run once more in the normal (non-minimal) output mode (source-context views, tables): it must come back to the prompt and end the same way. \
          Oracle: for every address in [origin-2, origin+n+2] minimal-mode `assembly <a>` prints exactly the renderer's text of the statement that produced that word (mnemonic/directive through last operand) and nothing for addresses without a statement; for up to 10 labels `goto L`, `goto L+-1`, to both ends of the program and one beyond, and a random signed-16-bit offset, set PC to address(L)+-k iff that is in user space (else PC stays); `print L` shows the word at L. The non-minimal breakpoint table (`.break` directives plus up to 12 added breakpoints) lists exactly the breakpoint addresses in order, and per row one of the labels at that address (or nothing) and the statement text, cut with an ellipsis where longer than the column. \
          Non-trivial: the program has a multi-word directive, an operand-less instruction following an operand-ful one, and a non-default origin or multi-byte text. Distinct = hash(rendered source, flag)."
     }
